@@ -186,6 +186,10 @@ func parseTimestamp(s string) (time.Time, error) {
 	if year, ok = num(4); !ok || !lit('-') {
 		return bad()
 	}
+	if year == 0 {
+		// PostgreSQL has no year zero (1 BC is written with a BC suffix)
+		return time.Time{}, pgError("date/time field value out of range: %q", s)
+	}
 	if month, ok = num(2); !ok || !lit('-') {
 		return bad()
 	}
